@@ -157,16 +157,8 @@ Section Run.
   Definition value_table : list (option Z) := table value_step p.
   Definition value_of (i : nat) : option Z := nth i value_table None.
 
-  (** store state after a complete successful run; [tw i] is the time at which node i's store is written *)
-  Definition after_run (tw : nat -> Z) : sstate :=
-    fun s =>
-      match find (fun i => match reg i with
-                           | Some e => (store e =? s)%nat && is_written i
-                           | None => false end) (seq 0 (length p)) with
-      | Some i => match value_of i with Some v => Some (v, tw i) | None => sg s end
-      | None => sg s
-      end.
-  (** ... and after a run cut short, where exactly the nodes in [w] completed their write *)
+  (** store state after a run in which exactly the nodes in [w] completed their write; [tw i] is the
+      time at which node i's store is written *)
   Definition after_cut (tw : nat -> Z) (w : nat -> bool) : sstate :=
     fun s =>
       match find (fun i => match reg i with
@@ -175,6 +167,8 @@ Section Run.
       | Some i => match value_of i with Some v => Some (v, tw i) | None => sg s end
       | None => sg s
       end.
+  (** ... and after a complete successful run *)
+  Definition after_run (tw : nat -> Z) : sstate := after_cut tw (fun _ => true).
 
   Definition run_output : option Z := match output with Some o => value_of o | None => None end.
 End Run.
